@@ -96,6 +96,13 @@ def auth_values(user, plain, stored):
         ('name:space-before-colon', ['Authorization : Basic ' + good]),
         ('name:proxy', ['Proxy-Authorization: Basic ' + good]),
         ('name:prefixed', ['X: Authorization: Basic ' + good]),
+        ('fold:tab-good', ['Authorization: Basic ' + good[:7], '\t' + good[7:]]),
+        ('fold:space-good', ['Authorization: Basic ' + good[:5], ' ' + good[5:]]),
+        ('fold:good-after-blank-value', ['Authorization: Basic ', '\t' + good]),
+        ('fold:good-plus-extra-tab', ['Authorization: Basic ' + good, '\tZZ']),
+        ('fold:good-plus-extra-space', ['Authorization: Basic ' + good, ' QUJD']),
+        ('fold:wrong-then-rest', ['Authorization: Basic ' + b64(user + ':' + plain + 'zz')[:6], '\t' + b64(user + ':' + plain + 'zz')[6:]]),
+        ('fold:good-then-other-header-fold', ['Authorization: Basic ' + good, 'X-A: b', '\tc']),
         ('decoy:x-forwarded-authorization', ['X-Forwarded-Authorization: Basic ' + good]),
         ('decoy:www-authorization', ['WWW-Authorization: Basic ' + good]),
         ('decoy:note', ['X-Note: Authorization: Basic ' + good]),
@@ -206,7 +213,7 @@ def gen_requests(chk, user, plain, stored, full):
     if full:
         for method in METHODS:
             for version in VERSIONS:
-                for path in ('/RPC2', '/logtail/g:p', '/', '/stylesheets/supervisor.css'):
+                for path in ('/RPC2', '/logtail/g:p', '/', '/stylesheets/supervisor.css', '/nonexistent/x'):
                     for cls, hl in some_auth:
                         body = rpc_body('rec.kill', 'x') if method in ('POST', 'PUT') else b''
                         out.append((('methods', path, cls, method, version.strip()),
@@ -252,6 +259,20 @@ def gen_requests(chk, user, plain, stored, full):
                            build_request('POST', '/RPC2', ' HTTP/1.1', hl, rpc_body('rec.kill', 'after-good')),
                            build_request('GET', '/index.html?action=stop&processname=g:p', ' HTTP/1.1', hl)):
                 out.append((('keepalive-after-good', '-', cls, '-', 'HTTP/1.1'), first + second, True))
+    # 5c. the request delivered in TWO segments, cut at every position of the Authorization line (the last header)
+    #     and of the final blank line: what the server acts on must not depend on the cut.  Right credentials, and
+    #     the right cookie followed by 1-3 extra characters (not a credential any more).
+    if full:
+        for cls, cookie in (('good', b64(user + ':' + plain)), ('b64:cookie+1', b64(user + ':' + plain) + 'Z'),
+                            ('b64:cookie+2', b64(user + ':' + plain) + 'ZZ'), ('b64:cookie+3', b64(user + ':' + plain) + 'ZZZ'),
+                            ('wrong:password-extended', b64(user + ':' + plain + 'x'))):
+            raw = build_request('GET', '/stylesheets/supervisor.css', ' HTTP/1.1', ['Host: x', 'Authorization: Basic ' + cookie])
+            start = raw.find(b'Authorization')
+            for cut in range(start, len(raw)):
+                out.append((('segmented', '/stylesheets/supervisor.css', cls, 'GET', 'HTTP/1.1'), raw, False, (cut,)))
+            for cut2 in (len(raw) - 3, len(raw) - 1):
+                out.append((('segmented', '/stylesheets/supervisor.css', cls, 'GET', 'HTTP/1.1'), raw, False,
+                            (len(raw) - 5, cut2)))
     # 6. random structured + hostile mutations
     nrand = (700 if full else 250) if chk.tier == 'quick' else (12000 if full else 4000)
     for _ in range(nrand):
@@ -317,7 +338,15 @@ def credential_occurrences(raw):
     Returns one list of (user, password) candidates per occurrence."""
     occ = []
     text = raw.decode('utf-8', 'replace')
+    # obs-fold (RFC 7230 3.2.4): a line that begins with SP or HTAB continues the previous header line;
+    # the value the server must see is the unfolded one (the folding character dropped, as join_headers does)
+    lines = []
     for line in text.split('\r\n'):
+        if line[:1] in (' ', '\t') and lines and lines[-1] != '':
+            lines[-1] = lines[-1] + line[1:]
+        else:
+            lines.append(line)
+    for line in lines:
         name, sep, value = line.partition(':')
         if not sep or not AUTH_NAME.fullmatch(name):
             continue
@@ -374,10 +403,10 @@ def impl_parse(text):
     return (command, uri, version, header)
 
 
-def observe(tb, which, raw, sink):
+def observe(tb, which, raw, sink, cuts=()):
     tb.reset()
     with contextlib.redirect_stdout(sink), contextlib.redirect_stderr(sink):
-        buf, closed = tb.exchange(which, raw)
+        buf, closed = tb.exchange(which, raw, cuts=cuts)
     import c17_server as S
     status, hd, body = S.parse_response(buf)
     first_req = None
@@ -543,7 +572,9 @@ def _run(chk, wd, proved, only=None):
             # the runtime chains against the generated table
             for chain in tb.chains:
                 flags = [w for _, w in chain]
-                if not all(flags) or (gen_info is not None and len(chain) != len(gen_info['dispatch'])):
+                inner_classes = [n for n, _ in chain]
+                if not all(flags) or (gen_info is not None and (len(chain) != len(gen_info['dispatch'])
+                                                                or inner_classes != gen_info['classes'])):
                     chk.violation({'kind': 'handler chain of the real server has an unwrapped element or differs from '
                                    'the generated table', 'chain': chain, 'config': [user, stored],
                                    'generated': gen_info and gen_info['dispatch']})
@@ -554,14 +585,18 @@ def _run(chk, wd, proved, only=None):
             reqs, n_product = gen_requests(chk, user, plain, stored, full=(ci == 0))
             if only is not None:
                 reqs = only
-            for ri, (tags, raw, pipelined) in enumerate(reqs):
+            for ri, req in enumerate(reqs):
+                tags, raw, pipelined = req[:3]
+                cuts = req[3] if len(req) > 3 else ()
+                if cuts:
+                    tags = tuple(tags) + ('request sent in segments cut at byte offsets %s' % list(cuts),)
                 if tags[0] == 'product' and tags[2] in ('good', 'absent', 'wrong:password-prefix', 'b64:bad-padding',
                                                         'nocolon:user'):
                     whiches = (0, 1)        # both servers
                 else:
                     whiches = ((ri + ci) % 2,)
                 for which in whiches:
-                    o = observe(tb, which, raw, sink)
+                    o = observe(tb, which, raw, sink, cuts=cuts)
                     n_exchanges += 1
                     fam = 'unix' if tb.addrs[which][0] == 1 else 'inet'
                     chk.dist('server:' + fam)
@@ -965,7 +1000,10 @@ CANON_OK = {
 }
 
 
-MUST_SERVE = ('good', 'good:lowercase-scheme', 'good:uppercase-all', 'good:mixed', 'good:then-bad', 'good:after-unmatched')
+MUST_SERVE = ('good', 'good:lowercase-scheme', 'good:uppercase-all', 'good:mixed', 'good:then-bad', 'good:after-unmatched',
+              'fold:tab-good', 'fold:space-good', 'fold:good-after-blank-value', 'fold:good-then-other-header-fold')
+# well-formed requests without the right credentials: the answer must be 401 with a Basic challenge
+MUST_401 = ('absent',)
 
 
 def _must_serve(chk, user, stored, tags, raw, o, fam):
@@ -973,7 +1011,14 @@ def _must_serve(chk, user, stored, tags, raw, o, fam):
     dispatched (its block parsed, match() did not raise) and whose Authorization
     header - under ANY capitalisation of the header name and of the scheme -
     carries exactly the configured credentials must reach the inner handler."""
-    if tags[0] not in ('product', 'methods', 'random') or tags[2] not in MUST_SERVE:
+    if tags[0] in ('product', 'methods', 'random', 'segmented') and o['first_req'] is not None and 'MRaise' not in o['ms'] \
+            and (tags[2] in MUST_401 or tags[2].startswith(('wrong:', 'empty:'))) and not o['inner']:
+        if o['status'] != 401 or not o['headers'].get('www-authenticate', '').startswith('Basic realm='):
+            chk.violation({'kind': 'PROPERTY VIOLATED: a request without valid credentials was not answered 401 with a Basic '
+                           'challenge', 'config': [user, stored], 'server': fam, 'raw': list(raw), 'tags': list(tags),
+                           'status': o['status'], 'www_authenticate': o['headers'].get('www-authenticate'),
+                           'match_answers': o['ms']})
+    if tags[0] not in ('product', 'methods', 'random', 'segmented') or tags[2] not in MUST_SERVE:
         return
     if o['first_req'] is None or 'MRaise' in o['ms'] or 'MTrue' not in o['ms'] or ':' in user:
         return
